@@ -57,7 +57,7 @@ pub fn run(case: &AaCase) -> Outcome {
             }
         }
     };
-    let mut check_balance = |out: &mut Outcome, st: St, rcvd: i128, sent: i128, at: u64, whence: &str| -> Option<Result<Option<usize>, Signals>> {
+    let check_balance = |out: &mut Outcome, st: St, rcvd: i128, sent: i128, at: u64, whence: &str| -> Option<Result<Option<usize>, Signals>> {
         let got = match guarded(|| aa.balance()) {
             Ok(g) => g,
             Err(rec) => {
